@@ -14,7 +14,7 @@ o6 == Obj(<< <<ka, u2>>, <<kb, sab>> >>)
 o4 == Obj(<< <<ka, Arr(<<u1, u2>>)>>, <<kb, Obj(<< <<ka, sa>> >>)>> >>)
 PathDocs ==
   {Null, u1, sab, True, Arr(<<>>), Obj(<<>>), Arr(<<u1>>), Arr(<<u1, u2, u256>>), Arr(<<Null, True, False, sEmpty>>),
-   Arr(<<sa, sab, sb>>), Arr(<<o1, o2, o3>>), Arr(<<o5, o2, o1, o6>>), Arr(<<u1, sab, u256, sa>>), Arr(<<o1, u1, o4, Arr(<<u2, o2>>)>>), o1, o2, o4,
+   Arr(<<sa, sab, sb>>), Arr(<<o1, o2, o3>>), Arr(<<o5, o2, o1, o6>>), Arr(<<u1, sab, u256, sa>>), Arr(<<finf, u0, fninf, fnan, umax, im1, imin>>), Arr(<<o1, u1, o4, Arr(<<u2, o2>>)>>), o1, o2, o4,
    Obj(<< <<ka, Arr(<<o1, o2>>)>>, <<kb, u2>> >>), Obj(<< <<ka, Obj(<< <<ka, Obj(<< <<ka, u1>> >>)>> >>)>> >>),
    Arr(<<Arr(<<u1, u2>>), Arr(<<>>), Arr(<<u256>>)>>), Obj(<< <<kEmpty, u1>>, <<kE, Arr(<<i1, f1, u1>>)>> >>),
    Arr(<<u2p53, u2p53p1, f2p53>>), Arr(<<im1, u0, fm0, f15>>),
@@ -44,7 +44,7 @@ Indices ==
 \* forms whose resolution needs more than 32 bits: last + v - 1 with v near the ends of the range
 ExtremeIndices == {<<AiI(IxL(IntMax))>>, <<AiS(IxL(IntMin), IxL(IntMax))>>, <<AiS(IxN(-1), IxN(IntMax))>>}
 
-Lits == {PNull, PBool(1), PBool(0), PNum(u1), PNum(u2), PNum(f15), PNum(i1), PStr(sab.s), PStr(sa.s), PStr(<<>>)}
+Lits == {PNull, PBool(1), PBool(0), PNum(u1), PNum(u2), PNum(f15), PNum(i1), PNum(im1), PStr(sab.s), PStr(sa.s), PStr(<<>>)}
 CmpOps == {"eq", "ne", "lt", "le", "gt", "ge"}
 LhsPaths == {<<Cur>>, <<Cur, Dot(ka)>>, <<Cur, Dot(kb)>>, <<Cur, BrW>>, <<Cur, Dot(ka), BrW>>, <<Root, Dot(kb)>>, <<Cur, DotW>>,
              <<Cur, Idx(<<AiI(IxL(0))>>)>>}
